@@ -191,6 +191,16 @@ def t_swap_loop(a: fp.Real, xs: list[fp.Real], ys: list[fp.Real]):
     return (xs[0], ys[0], p, q)
 
 @fp.fpy
+def t_enum_pairs(a: fp.Real, xs: list[fp.Real], xss: list[list[fp.Real]]):
+    ps = [p for p in enumerate(xss)]
+    q = ps[0]
+    zs = [z for z in zip(xs, xss)]
+    i, row = q
+    row[0] = a + i
+    w = zs[0]
+    return (ps, q, zs, w, xss[0][0])
+
+@fp.fpy
 def h_ident(xs: list[fp.Real]):
     return xs
 
@@ -537,7 +547,7 @@ def c_stochastic():
 
 ALL = [t_bind, t_bind_const, t_index_nested, t_slice, t_slice_flat, t_construct, t_construct_const, t_tuple,
        t_iterate, t_comprehension, t_enumerate, t_zip, t_ifexpr, t_phi, t_loop_rebind, t_store_row, t_nested3,
-       t_fst_snd, t_store_deep, t_tuple_in_list, t_swap_loop, t_call_ident, t_call_poke,
+       t_fst_snd, t_enum_pairs, t_store_deep, t_tuple_in_list, t_swap_loop, t_call_ident, t_call_poke,
        v_ladder, v_ladder_ctx, v_real_arith, v_real_refined, v_loop, v_minmax, v_fixed, v_ops, v_nested_refine,
        v_while_refine,
        s_sizes, s_phi_sizes, s_grow, s_nested, s_ragged, s_assert, s_early_return, s_early_return_assert,
@@ -555,6 +565,11 @@ FIXED = {
     't_bind_const': [(5.0,)],
     't_construct_const': [(5.0,)],
     't_call_poke': [(1.0,)],
+    't_enum_pairs': [(1.0, [1.0, 2.0], [[3.0], [4.0, 5.0]])],
+    # C13-F7 (Purity): an argument's list written through another name (alias, row, loop target)
+    't_bind': [(5.0, [1.0, 2.0])],
+    't_index_nested': [(5.0, [[1.0], [2.0]])],
+    't_iterate': [(5.0, [[1.0], [2.0]])],
     'c_declared': [(5.0,)],
     's_early_return': [(1.0, [1.0, 2.0], [1.0, 2.0, 3.0]), (-1.0, [1.0, 2.0], [3.0, 4.0])],
     's_early_return_assert': [(1.0, [1.0]), (-1.0, [1.0, 2.0])],
